@@ -96,27 +96,49 @@ func NewReverseAnchoredSearcher(forwardNFA *nfa.NFA, config lazy.Config) (*Rever
 //	Forward haystack: "xxxabc"
 //	SearchReverse finds start=3, end=6 (because $ anchor)
 func (s *ReverseAnchoredSearcher) Find(haystack []byte) *Match {
+	start, end, found := s.FindIndices(haystack)
+	if !found {
+		return nil
+	}
+	return NewMatch(start, end, haystack)
+}
+
+// FindIndices is Find without the Match object: it returns the bounds of the match
+// by value (zero allocation).
+func (s *ReverseAnchoredSearcher) FindIndices(haystack []byte) (start, end int, found bool) {
+	return s.FindIndicesWithCache(haystack, nil)
+}
+
+// FindIndicesWithCache is FindIndices with the reverse DFA cache provided by the
+// caller (the pooled SearchState of the engine); with a nil cache it takes one from
+// the searcher's own pool.
+func (s *ReverseAnchoredSearcher) FindIndicesWithCache(haystack []byte, revCache *lazy.DFACache) (start, end int, found bool) {
 	// For empty strings, use forward PikeVM
 	// Reverse NFA has issues with empty strings and certain alternations
 	if len(haystack) == 0 {
 		start, end, matched := s.forwardPikevm.Search(haystack)
 		if !matched {
-			return nil
+			return -1, -1, false
 		}
-		return NewMatch(start, end, haystack)
+		return start, end, true
 	}
 
 	// Use SearchReverse to find match START (zero-allocation backward scan)
 	// For $-anchored patterns, the END is always len(haystack)
-	cache := s.revCachePool.Get().(*lazy.DFACache)
-	matchStart := s.reverseDFA.SearchReverse(cache, haystack, 0, len(haystack))
-	s.revCachePool.Put(cache)
+	var matchStart int
+	if revCache != nil {
+		matchStart = s.reverseDFA.SearchReverse(revCache, haystack, 0, len(haystack))
+	} else {
+		cache := s.revCachePool.Get().(*lazy.DFACache)
+		matchStart = s.reverseDFA.SearchReverse(cache, haystack, 0, len(haystack))
+		s.revCachePool.Put(cache)
+	}
 	if matchStart < 0 {
-		return nil
+		return -1, -1, false
 	}
 
 	// For $-anchored patterns, the match always ends at len(haystack)
-	return NewMatch(matchStart, len(haystack), haystack)
+	return matchStart, len(haystack), true
 }
 
 // IsMatch checks if the pattern matches at the end of haystack.
@@ -127,6 +149,13 @@ func (s *ReverseAnchoredSearcher) Find(haystack []byte) *Match {
 //   - No Match object allocation
 //   - Early termination
 func (s *ReverseAnchoredSearcher) IsMatch(haystack []byte) bool {
+	return s.IsMatchWithCache(haystack, nil)
+}
+
+// IsMatchWithCache is IsMatch with the reverse DFA cache provided by the caller
+// (the pooled SearchState of the engine); with a nil cache it takes one from the
+// searcher's own pool.
+func (s *ReverseAnchoredSearcher) IsMatchWithCache(haystack []byte, revCache *lazy.DFACache) bool {
 	// For empty strings, use forward PikeVM
 	// Reverse NFA has issues with empty strings and certain alternations
 	if len(haystack) == 0 {
@@ -136,6 +165,9 @@ func (s *ReverseAnchoredSearcher) IsMatch(haystack []byte) bool {
 
 	// Use reverse DFA to scan backward from end to start
 	// ZERO-ALLOCATION: IsMatchReverse scans backward without byte reversal
+	if revCache != nil {
+		return s.reverseDFA.IsMatchReverse(revCache, haystack, 0, len(haystack))
+	}
 	cache := s.revCachePool.Get().(*lazy.DFACache)
 	result := s.reverseDFA.IsMatchReverse(cache, haystack, 0, len(haystack))
 	s.revCachePool.Put(cache)
